@@ -27,6 +27,8 @@ is a shape the extractor does not understand (fail-closed, less serious, still w
     swap-independent   x = <pure>; y = <pure>  ->  y = <pure>; x = <pure>
     annotate-locals   x = e  ->  x: object = e ;  add-asserts   a tautological assert on the first parameter at the top of every function
     modern-annotations  Optional[X] -> X | None, Union[A, B] -> A | B, List[X] -> list[X] ... inside annotations (pyupgrade)
+    small-idioms   chained comparison split, tuple <-> list literals in `for` / `in`, dict() / list() / tuple() -> displays
+    empty-displays-to-calls   {} -> dict(), [] -> list()
     hoist-strings  a string literal used twice in the functions of a module becomes a module-level constant
     extract-alias  .. x.costs[a] .. x.costs[b] ..  ->  alias = x.costs; .. alias[a] .. alias[b] ..
     inline-alias   c = x.costs; .. c[k] ..  ->  .. x.costs[k] ..   (top-level local bound once to an attribute chain of a parameter)
@@ -693,6 +695,54 @@ class ModernAnnotations(Rewrite):
         return node
 
 
+
+class SmallIdioms(Rewrite):
+    """a <= b < c -> a <= b and b < c (b a plain name);  for k in (0, 1) <-> [0, 1];  x in (a, b) -> x in [a, b];
+    dict() -> {}, list() -> [], tuple() -> ()"""
+
+    def visit_Compare(self, node):
+        node = self.generic_visit(node)
+        if len(node.ops) == 2 and isinstance(node.comparators[0], (ast.Name, ast.Constant)) and self.hit():
+            mid = node.comparators[0]
+            return ast.BoolOp(op=ast.And(), values=[
+                ast.Compare(left=node.left, ops=[node.ops[0]], comparators=[mid]),
+                ast.Compare(left=copy.deepcopy(mid), ops=[node.ops[1]], comparators=[node.comparators[1]]),
+            ])
+        if len(node.ops) == 1 and isinstance(node.ops[0], (ast.In, ast.NotIn)) and isinstance(node.comparators[0], ast.Tuple) and self.hit():
+            node.comparators = [ast.List(elts=node.comparators[0].elts, ctx=ast.Load())]
+        return node
+
+    def visit_For(self, node):
+        node = self.generic_visit(node)
+        if isinstance(node.iter, ast.Tuple) and self.hit():
+            node.iter = ast.List(elts=node.iter.elts, ctx=ast.Load())
+        elif isinstance(node.iter, ast.List) and self.hit():
+            node.iter = ast.Tuple(elts=node.iter.elts, ctx=ast.Load())
+        return node
+
+    def visit_Call(self, node):
+        node = self.generic_visit(node)
+        if isinstance(node.func, ast.Name) and not node.args and not node.keywords and node.func.id in ("dict", "list", "tuple") and self.hit():
+            return {"dict": ast.Dict(keys=[], values=[]), "list": ast.List(elts=[], ctx=ast.Load()), "tuple": ast.Tuple(elts=[], ctx=ast.Load())}[node.func.id]
+        return node
+
+
+class EmptyDisplaysToCalls(Rewrite):
+    """{} -> dict(), [] -> list()   (empty displays only)"""
+
+    def visit_Dict(self, node):
+        node = self.generic_visit(node)
+        if not node.keys and self.hit():
+            return ast.Call(func=ast.Name(id="dict", ctx=ast.Load()), args=[], keywords=[])
+        return node
+
+    def visit_List(self, node):
+        node = self.generic_visit(node)
+        if not node.elts and isinstance(node.ctx, ast.Load) and self.hit():
+            return ast.Call(func=ast.Name(id="list", ctx=ast.Load()), args=[], keywords=[])
+        return node
+
+
 def package_signatures(prog):
     seen, dup = {}, set()
     for mod in prog.modules.values():
@@ -739,6 +789,8 @@ REWRITES = {
     "add-asserts": lambda sig, only: AddAsserts(only),
     "hoist-strings": lambda sig, only: HoistStrings(only),
     "modern-annotations": lambda sig, only: ModernAnnotations(only),
+    "small-idioms": lambda sig, only: SmallIdioms(only),
+    "empty-displays-to-calls": lambda sig, only: EmptyDisplaysToCalls(only),
 }
 
 
